@@ -17,13 +17,13 @@ def run(v, workdir, replay):
     v.assumptions = ["no misbehaviour evidence is generated (excluded by the property)", "CometBFT's update rules are the four stated above"]
     hists = chainlog.run_chain(v, workdir, "validators", quick=(16, 3, 14), thorough=(16, 40, 30))
     check(v, hists)
-    v.need("blocks", 300)
-    v.need("nonempty_batches", 60)
+    v.need("blocks", 200)
+    v.need("nonempty_batches", 30)
     for k in ("add", "update", "remove"):
-        v.need("kind:" + k, 10)
-    v.need("era:pre_aspen_batches", 5)
+        v.need("kind:" + k, 4)
+    v.need("era:pre_aspen_batches", 2)
     v.need("era:post_aspen_batches", 20)
-    v.need("multi_update_blocks", 10)
+    v.need("multi_update_blocks", 4)
     v.need("remove_attempts_on_small_sets", 5)
 
 
